@@ -41,6 +41,7 @@ type Tier struct {
 
 // Unit functions by name.
 var Units = map[string]func(p *load.Program, r *Roles, t Tier) *UnitResult{
+	"loops": func(p *load.Program, r *Roles, t Tier) *UnitResult { return AnalyzeRetryLoops(p, r) },
 	"run": func(p *load.Program, r *Roles, t Tier) *UnitResult {
 		res := AnalyzeRun(p, r, t.Depth)
 		return &UnitResult{Col: res.Col, Stats: res.Stats}
@@ -87,6 +88,41 @@ func init() {
 			{"C01.R3@single|*:cb:Post", 1, "post invoke on the single-node path"}, {"C01.R5@single|*:return", 1, "returns of the single-node path"},
 			{"C01.R2@batch|*:cb:Exec", 1, "per-item exec"}, {"C01.R3@batch|*:cb:Post", 1, "batch post"}},
 		Assumptions: commonAssumptions})
+	reg(&Prop{ID: "C02", Units: []string{"run", "loops"}, Technique: "static analysis: scalar-evolution trip-count analysis + path-sensitive retry typestate over go/ssa",
+		Explanation: lifeExpl + " C02 decides: (R1, static arithmetic) every loop that directly contains an exec attempt has a unit-step attempt counter whose exit test, evaluated after attempt j, is equivalent to j < V for one symbolic V, and (R1, path-sensitive half) V is the node's GetMaxRetries() value, or the constant 1 for a node known not to expose retry settings; (R2) exactly one attempt per iteration; (R3) a further attempt only after a known-failed one, and a run fails with an exec error only after the budget test exhausted; (R4) the fallback is invoked at most once, only after exhaustion with the last attempt known failed, on the node being run, with (prep value, that last error), and is not skipped when the node may implement it. Same rules on the single-node path and on the per-item path.",
+		CaseRule:    "an obligation instance is one (abstract path, site) pair or one loop for the static arithmetic rule; distinct = distinct rule@construct keys",
+		Floors: []Floor{{"C02.R1@*:retry-loop", 2, "static trip-count obligations (single-node loop and per-item loop)"}, {"C02.R1@single|*:budget-test", 1, "budget provenance, single"}, {"C02.R1@batch|*:budget-test", 1, "budget provenance, per item"},
+			{"C02.R3@single|*:cb:Exec", 1, "retry precondition"}, {"C02.R4@single|*:cb:ExecFallback", 1, "fallback, single"}, {"C02.R4@batch|*:cb:ExecFallback", 1, "fallback, per item"}, {"C02.R2@*:retry-loop-iteration", 2, "one attempt per iteration"}},
+		Assumptions: append(append([]string{}, commonAssumptions...), "a budget that changes between two reads of GetMaxRetries() is outside the property (it is read once per run/item)")})
+	reg(&Prop{ID: "C20", Units: []string{"run"}, Technique: "static analysis: path-sensitive wait-event typestate over go/ssa",
+		Explanation: lifeExpl + " C20 decides the structural cause of the timing statement: on every retry path a wait event (select on a timer channel created with the node's GetWait() value) lies between the failed attempt and the next one unless wait<=0 is established on that path; no wait precedes the first attempt or follows the last one (before fallback/post/return/next item); every wait is a select that also receives from ctx.Done(); time.Sleep and bare timer receives are not used. Measured durations are delegated to the time package's contract.",
+		CaseRule:    "an obligation instance is one (abstract path, site) pair; distinct = distinct rule@construct keys",
+		Floors:      []Floor{{"C20.R1@single|*:cb:Exec", 1, "wait before retries, single"}, {"C20.R1@batch|*:cb:Exec", 1, "wait before retries, per item"}, {"C20.R4@*", 2, "interruptible wait selects"}, {"C20.R2@*", 2, "no wait before first attempt"}, {"C20.R3@*", 3, "no wait after last attempt"}},
+		Assumptions: append(append([]string{}, commonAssumptions...), "elapsed time >= w is the contract of time.After/time.NewTimer; promptness after cancellation is the contract of select")})
+	batchExpl := lifeExpl + " On the batch paths the result list is abstracted per loop: for every loop that stores Result values through an index, the monitor records the indexed slice, the offset of the index from the loop's induction variable, whether every completed iteration stored its slot, how the loop was left (induction-variable test against the slice length, or early), and the provenance class of every stored value."
+	reg(&Prop{ID: "C06", Units: []string{"run"}, Technique: "static analysis: path-sensitive slot-coverage/provenance abstract interpretation over go/ssa (batch paths, task closure inlined)",
+		Explanation: batchExpl + " C06 decides: post is invoked once, after pool.Wait() has followed the last Submit; it receives the item list and a result list made with len(items); the item list is prep's []Result itself or an index-preserving copy of prep's list; every result store writes slot IV+c of the current iteration with a value derived from the exec phase of the item loaded from items[IV+c] in the same iteration/task (or an error); one submit / one exec chain per iteration; no append to the result list.",
+		CaseRule:    "an obligation instance is one (abstract path, site) pair; distinct = distinct rule@construct keys",
+		Floors: []Floor{{"C06.R1@batch|*:post", 1, "length agreement"}, {"C06.R2@batch|*:post", 1, "slot coverage and provenance at post"}, {"C06.R2@batch|*:item-exec", 1, "exec argument is items[i]"}, {"C06.R4@batch|*:post", 1, "wait before post"},
+			{"C06.R4@batch|*:pool-close", 1, "close after wait"}, {"C06.R6@batch|*:post", 1, "post arguments"}, {"C06.R7@batch|*:items", 1, "item list provenance"}, {"C06.R5@batch|*:post", 1, "one chain/submit per iteration"}},
+		Assumptions: append(append([]string{}, commonAssumptions...), "concurrent writes to distinct slots do not race (Go memory model) and are visible after WaitGroup.Wait (C12 decides the pool's barrier)")})
+	reg(&Prop{ID: "C07", Units: []string{"run", "loops"}, Technique: "static analysis: path-sensitive per-item typestate + effect analysis over go/ssa",
+		Explanation: batchExpl + " C07 decides: in continue mode the item loop is left only through its index test against the list length (no break/return), every iteration/task runs exactly one exec chain unless it observed cancellation, the per-item chain obeys the retry/fallback rules of C02 (re-checked on the per-item function), the per-item path writes no memory shared between items other than its own result slot and boolean constants to the mutex-guarded stop flag, and the slot on failure holds the last attempt's (or the fallback's) error.",
+		CaseRule:    "an obligation instance is one (abstract path, site) pair; distinct = distinct rule@construct keys",
+		Floors: []Floor{{"C07.R1@batch|*:post", 1, "no early exit in continue mode"}, {"C07.R2@batch|*:post", 1, "one chain per item"}, {"C07.R3@batch|*:cb:Exec", 1, "per-item retry rules"}, {"C07.R3@batch|*:cb:ExecFallback", 1, "per-item fallback rules"},
+			{"C07.R3@batch|*:budget-test", 1, "per-item budget provenance"}, {"C07.R4@batch|*:shared-write", 1, "effect set of the per-item path"}, {"C07.R5@batch|*:post", 1, "slot value provenance"}},
+		Assumptions: commonAssumptions})
+	reg(&Prop{ID: "C09", Units: []string{"run"}, Technique: "static analysis: path-sensitive slot-coverage + lock-held typestate over go/ssa",
+		Explanation: batchExpl + " C09 decides: (R1) sequential stop mode: no item exec starts after an error outcome was stored; (R2) concurrent stop mode: each task reads the shared stop flag while holding the mutex and executes its item only when it read false, a failing task stores true while holding the mutex, the mutex is released on every task path; (R3) slot coverage: at post every slot of the result list was assigned on every path - the item loop ran to the end of the list, or the current slot was stored and a loop ran over results[i+1:] to its end storing an error result in every slot; (R4) every stored value is the item's own outcome or an error, never a success value for an item that did not run.",
+		CaseRule:    "an obligation instance is one (abstract path, site) pair; distinct = distinct rule@construct keys",
+		Floors: []Floor{{"C09.R1@batch|*:item-exec", 1, "stop mode, sequential"}, {"C09.R2@batch|*:item-exec", 1, "flag read before exec"}, {"C09.R2@batch|*:task-exit", 1, "flag set / mutex released at task exit"}, {"C09.R2@batch|*:stop-flag-read", 1, "flag read under mutex"},
+			{"C09.R2@batch|*:stop-flag-write", 1, "flag write under mutex"}, {"C09.R3@batch|*:post", 1, "slot coverage"}, {"C09.R4@batch|*:post", 1, "slot provenance"}},
+		Assumptions: commonAssumptions})
+	reg(&Prop{ID: "C11", Units: []string{"run"}, Technique: "static analysis: path-sensitive context-observation typestate + slot coverage over go/ssa (batch paths)",
+		Explanation: batchExpl + " C11 decides: (R1) every per-item exec attempt is preceded, since the previous user callback or the start of the iteration/task, by a context observation taking the not-cancelled edge; (R2) the per-item retry wait selects on ctx.Done(); (R3) on every path each slot of an item that was not executed holds an error result at post (coverage as in C09); (R4) the item phase terminates: the mutex is released on every task path and Wait follows the last Submit before post. Wall-clock promptness is not decided.",
+		CaseRule:    "an obligation instance is one (abstract path, site) pair; distinct = distinct rule@construct keys",
+		Floors:      []Floor{{"C11.R1@batch|*:cb:Exec", 1, "observation before per-item attempts"}, {"C11.R2@batch|*:wait-select", 1, "interruptible per-item wait"}, {"C11.R3@batch|*:post", 1, "coverage at post"}, {"C11.R4@batch|*", 2, "termination: unlock on all task paths, wait before post"}},
+		Assumptions: append(append([]string{}, commonAssumptions...), "which worker holds which item at the instant of cancellation is a schedule question; the structural cause (the observation is made by each task before executing) is what is decided")})
 	reg(&Prop{ID: "C04", Units: []string{"run"}, Technique: "static analysis: path-sensitive error-provenance (wrap-chain) abstract interpretation over go/ssa",
 		Explanation: lifeExpl + " C04 decides on Run (single and batch paths): nil error iff the path ended in a successful post; every error return that follows a failing callback wraps (fmt.Errorf %w / errors.Join / identity) that callback's own error term, and no further phase callback is invoked after it.",
 		CaseRule:    "an obligation instance is one (abstract path, return or call site) pair; distinct = distinct rule@construct keys",
